@@ -208,12 +208,12 @@ func replayBed(raw []byte) *ev.Failure {
 }
 
 func init() {
-	for _, n := range []string{"c02.roundtrip@bed", "c03.rpc@bed", "c16.middleware@bed", "bed.bindings@bed", "bed.scopes@bed", "c02.bed", "c03.bed", "c16.bed", "c08.bed"} {
+	for _, n := range []string{"c02.roundtrip@bed", "c02.constructed@bed", "c03.rpc@bed", "c16.middleware@bed", "bed.bindings@bed", "bed.scopes@bed", "c02.bed", "c03.bed", "c16.bed", "c08.bed"} {
 		ev.Register(n, replayBed)
 	}
 }
 
-func TestBedC02(t *testing.T) { bedBatch(t, "c02.bed", "TestBindings|TestC02") }
+func TestBedC02(t *testing.T) { bedBatch(t, "c02.bed", "TestBindings|TestC02|TestC02Build") }
 func TestBedC03(t *testing.T) { bedBatch(t, "c03.bed", "TestBindings|TestC03|TestScopes") }
 func TestBedC16(t *testing.T) { bedBatch(t, "c16.bed", "TestBindings|TestC16|TestScopes") }
 
